@@ -45,6 +45,10 @@ def cases(draw, cls, max_n=120):
     case = {"cfg": cfg, "stream": draw(gs.streams(n, n, with_ts=False))}
     if cls in nm.RETUNE_OK and draw(st.integers(0, 3)) == 0:
         case["retune_from"] = draw(st.integers(2, 20))  # first built and calculated with this period, then re-tuned
+    if draw(st.integers(0, 3)) == 0:
+        from hxv.lib import interlude
+
+        case["interlude"] = dict(interlude(lambda a, b: draw(st.integers(a, b)), lambda xs: draw(st.sampled_from(xs))), at=draw(st.integers(1, 80)))
     return case
 
 
@@ -137,7 +141,9 @@ def run_case(case) -> Result:
         except Exception as exc:
             ind, v = None, raises(exc)
     else:
-        ind, v = nm.run_batch(cfg, rows, prep)
+        ind, v = nm.run_batch(cfg, rows, prep, inter=case.get("interlude"))
+        if case.get("interlude"):
+            labels.append("maintenance_interlude")
     if v is not None:
         v.subject = cls
         return Result([v], False, labels)
